@@ -49,11 +49,14 @@ def recoded(prog, meth, args):
 
 
 def run(ck, prog):
+    from props.common import check_memos
+    ck.attempt(check_memos, ck, prog)
     ck.explanation = (
         "Each recoding loop is folded per letter (finite case split), with the group arguments chosen so that every "
         "letter meets every membership combination (in group 1?, in group 2?); the continuation is read as `kappa of a "
         "fresh Sequence built from exactly the recoded string`. Composition with the constructor's charge map gives the "
         "charge pattern of the recoded sequence.")
+    ck.attempt(_fresh_ctors, ck, prog)
     cmap = check_charge_map(ck, prog)
     # ---------------- Omega / Omega_seq
     f = prog.fn(SEQ, "Sequence.Omega")
@@ -167,3 +170,17 @@ def _membership_only(ck, prog, h, construct):
                     bad.append(unparse(par)[:60] if par is not None else name)
     ck.ob("USE", construct, not bad, expected="groups used only via membership, truthiness and __parse_group", found=bad, slot="group-uses",
           where=h.loc())
+
+
+def _fresh_ctors(ck, prog):
+    """the recoded sequence is analysed as a brand-new object: Sequence(<recoded string>) and nothing else"""
+    for meth in ("Omega", "kappa_X"):
+        f = prog.fn(SEQ, "Sequence." + meth)
+        ctors = [c for c in ast.walk(f.node) if isinstance(c, ast.Call) and prog.class_of_ctor(f.mod, c) == "Sequence"]
+        for c in ctors:
+            extra = [unparse(a) for a in c.args[1:]] + ["%s=%s" % (k.arg, unparse(k.value)) for k in c.keywords]
+            ck.ob("CTOR-fresh", SEQ_PATH + ":Sequence." + meth, not extra, expected="Sequence(<recoded string>) with no carried-over dmax / charge pattern",
+                  found=unparse(c)[:100], slot="ctor", where=f.loc(c),
+                  note="a delta-max carried into the recoded object belongs to a different composition")
+        ck.ob("CTOR-fresh", SEQ_PATH + ":Sequence." + meth, len(ctors) >= 1, expected="the recoded sequence gets its own object", found=len(ctors), slot="ctor-count",
+              where=f.loc())
